@@ -12,7 +12,7 @@ import obs
 import refemu
 import viewcmp
 
-ALPHA = "xprcwe"
+ALPHA = "xXprcwe"     # X = execute naming another CPU of the loom than the thread's usual one
 # shortest completion to Dead from each state
 COMPLETE = {refemu.UNKNOWN: "xe", refemu.RUNNING: "e", refemu.COOLING: "e",
             refemu.PAUSED: "re", refemu.WARMING: "re", refemu.DEAD: ""}
@@ -21,9 +21,17 @@ COMPLETE = {refemu.UNKNOWN: "xe", refemu.RUNNING: "e", refemu.COOLING: "e",
 def make_desc(cfg):
     """cfg: list of cpu index per thread (-1 = virtual); one loom, one proc.
     Threads with the same index share that CPU."""
-    ncpu = max([c for c in cfg if c >= 0] + [0]) + 1
+    ncpu = max([c for c in cfg if c >= 0] + [1]) + 1      # at least two CPUs so that X has somewhere to go
     return {"looms": [{"name": "L0", "cpus": [(i, i + 4) for i in range(ncpu)],
                        "procs": [{"pid": 7, "appid": 1, "threads": [100 + i for i in range(len(cfg))]}]}]}
+
+
+def xcpu(cfg, ti, a):
+    """CPU index named by an execute event of thread ti."""
+    if a == "x":
+        return cfg[ti]
+    ncpu = max([c for c in cfg if c >= 0] + [1]) + 1
+    return 0 if cfg[ti] < 0 else (cfg[ti] + 1) % ncpu
 
 
 def to_history(desc, cfg, word):
@@ -31,8 +39,8 @@ def to_history(desc, cfg, word):
     keys = [("L0", 7, 100 + i) for i in range(len(cfg))]
     h = []
     for n, (ti, a) in enumerate(word):
-        pl = obs.i32(cfg[ti], 100 + ti, 0) if a == "x" else b""
-        h.append((1000 + 10 * n, keys[ti], "OH" + a, pl))
+        pl = obs.i32(xcpu(cfg, ti, a), 100 + ti, 0) if a in "xX" else b""
+        h.append((1000 + 10 * n, keys[ti], "OH" + a.lower(), pl))
     return h
 
 
@@ -43,7 +51,7 @@ def model_run(desc, cfg, word):
     for n, (ti, a) in enumerate(word):
         th = sys_.thread(("L0", 7, 100 + ti))
         try:
-            sys_.ovni_event(th, "OH" + a, obs.i32(cfg[ti], 100 + ti, 0) if a == "x" else b"")
+            sys_.ovni_event(th, "OH" + a.lower(), obs.i32(xcpu(cfg, ti, a), 100 + ti, 0) if a in "xX" else b"")
         except refemu.Reject as r:
             return n, sys_, tv, str(r)
         tv.append(sys_.thread_view())
@@ -77,7 +85,7 @@ def enumerate_closure(cfg, depth):
             assert bad is None
             for s in syms:
                 th = sys_.thread(("L0", 7, 100 + s[0]))
-                if th.state == refemu.DEAD and s[1] == "x":
+                if th.state == refemu.DEAD and s[1] in "xX":
                     continue    # left open by the property
                 w = p + [s]
                 b2, _, _, _ = model_run(desc, cfg, w)
@@ -178,12 +186,12 @@ def gen_random(chk, i):
         th = sys_.thread(("L0", 7, 100 + ti))
         legal = []
         for a in ALPHA:
-            if th.state == refemu.DEAD and a == "x":
+            if th.state == refemu.DEAD and a in "xX":
                 continue
             if model_run(desc, cfg, word + [(ti, a)])[0] is None:
                 legal.append(a)
         if inject_bad and n == L - 1:
-            illegal = [a for a in ALPHA if a not in legal and not (th.state == refemu.DEAD and a == "x")]
+            illegal = [a for a in ALPHA if a not in legal and not (th.state == refemu.DEAD and a in "xX")]
             if illegal:
                 word.append((ti, rng.choice(illegal)))
                 break
@@ -263,7 +271,7 @@ def main(argv):
             samples.append({"cfg": cfg, "random_word": ["%d:OH%s" % p for p in word]})
     cov = {"evaluations": runs, "distinct_nontrivial": len(words),
            "rule": "legal-prefix closure: every legal prefix (per the six-transition machine) of bounded length over "
-                   "{OHx,OHp,OHr,OHc,OHw,OHe} x threads, extended by every possible next event, run through ovniemu "
+                   "{OHx(own CPU),OHx(another CPU),OHp,OHr,OHc,OHw,OHe} x threads, extended by every possible next event, run through ovniemu "
                    "completed to Dead (and bare when not all dead); plus random histories up to length 40 on 1-3 "
                    "threads. distinct_nontrivial = distinct (cpu configuration, history) words executed",
            "samples": samples, "closure_pairs": len(closure), "closure_legal_next": legal_next,
